@@ -540,7 +540,7 @@ func (c *converter) Exists(path string, valueUsed bool) (string, error) {
 
 func (c *converter) ReadFile(path string, valueUsed bool) (string, error) {
 	helper := c.nextHelperVar()
-	c.VarAssignment(helper, fmt.Sprintf("$(cat \"%s\")", path), false)
+	c.VarAssignment(helper, fmt.Sprintf("$(cat -- \"%s\")", path), false)
 	return c.VarEvaluation(helper, valueUsed, false)
 }
 
